@@ -187,9 +187,11 @@ PROPS["C13"] = {
             "every returned invocation, its slot set, and every pair observed equal (all asserted pairs + a sample). After every call: progress moves only in its documented lexicographic "
             "direction, every old handle canonicalises to a live class, its slot set only shrinks, a sliding sample of recorded equalities still holds (all of them at the end), and every "
             "10 calls a term is extracted from every old handle and looked up again. Non-trivial = distinct history with >= 3 recorded equal pairs.",
-    "assumptions": ["four-slot leaves are left out of these long histories (the crate's shape computation is exponential in the children's group sizes and only yields watchdog timeouts)"],
-    "quick": [{"variant": "default", "cases": 1200, "params": {"case_timeout": 30}, "timeout": 900}],
-    "thorough": [{"variant": "default", "cases": 60000, "params": {"len_lo": 40, "len_hi": 300, "case_timeout": 60}, "timeout": 3400}, {"variant": "checks", "cases": 4000, "params": {"case_timeout": 120}, "timeout": 3400}],
+    "assumptions": ["four-slot leaves are left out of the long histories with rewriting (the crate's shape computation is exponential in the children's group sizes and only yields watchdog timeouts); a second lane runs short union-only histories over few operators including the four-slot leaf"],
+    "quick": [{"variant": "default", "cases": 1200, "params": {"case_timeout": 30}, "timeout": 900},
+              {"variant": "default", "cases": 4000, "params": {"with_q": 1, "len_lo": 8, "len_hi": 30, "case_timeout": 30}, "timeout": 900}],
+    "thorough": [{"variant": "default", "cases": 60000, "params": {"len_lo": 40, "len_hi": 300, "case_timeout": 60}, "timeout": 3400},
+                 {"variant": "default", "cases": 400000, "params": {"with_q": 1, "len_lo": 8, "len_hi": 40, "case_timeout": 60}, "timeout": 3400}, {"variant": "checks", "cases": 4000, "params": {"case_timeout": 120}, "timeout": 3400}],
     "floors": {"any": {"histories_completed": 800, "equal_pairs_recorded": 100000, "progress_checks": 50000, "extractions_from_old_handles": 50000}},
 }
 PROPS["C17"]["quick"].append({"variant": "default", "cases": 1200, "params": {"lazy": 1}, "worker_prop": "C11", "timeout": 600})
